@@ -114,7 +114,6 @@ def setvalue_clauses(key):
         "C03+C15.own-links-kept": "self._parent is old(self._parent) and self._key == old(self._key) and self._container is old(self._container) and self._schema is old(self._schema)",
         "C15.undeclared-key-is-attribute-error": "implies(old(fieldof(self, KEY)) is None, exc_is(AttributeError))",
         "C15.field-rejection-is-validation-error": "implies(old(persistent(fieldof(self, KEY))), exc_is(ValidationError))",
-        "C15.subconfig-rejection-class": "implies(old(fieldof(self, KEY) is not None and not typeis(fieldof(self, KEY), 'ref:Field')), exc_is(ValidationError, AttributeError))",
         "C06.state-unchanged": UNCHANGED,
         "C12.rejected-keeps-status": "set_same(self._default_value_keys)",
     }
@@ -173,16 +172,37 @@ def register_io(reg):
       ensures={"C04.registry": "fresh(result)", "C19.no-file-effect": "fs_same()"}, raises={"C19.no-file-effect": "fs_same()"},
       note="class-level registry (name-mangled class attributes, lazy import of the formats package): outside the subset; "
            "the registry contents are checked by the C04 bounded driver")
-    C("core:ConfigFormat.dumps", virtual=True, params={"config": "ref:Config", "tree": "ref:dict"}, returns="bytes", modifies=["fresh"],
+    C("core:ConfigFormat.dumps", virtual=True, abstract=True, params={"config": "ref:Config", "tree": "ref:dict"}, returns="bytes", modifies=["fresh"],
       ensures={"C19.no-file-effect": "fs_same()"}, raises={"C19.no-file-effect": "fs_same()"})
-    C("core:ConfigFormat.loads", virtual=True, params={"config": "ref:Config", "content": "bytes"}, returns="ref:dict", modifies=["fresh"],
+    C("core:ConfigFormat.loads", virtual=True, abstract=True, params={"config": "ref:Config", "content": "bytes"}, returns="ref:dict", modifies=["fresh"],
       ensures={"C06.parse-touches-nothing": "heap_unchanged() and fs_same()", "C18.new-tree": "fresh(result)"},
       raises={"C06.parse-touches-nothing": "heap_unchanged() and fs_same()"})
     KF0 = "forall('p:str', 'implies(not is_keyfile_path(p), fs_cell_same(p))')"
     C("core:Config.to_tree", params={"virtual": "any", "sensitive_mask": "opt:str"}, returns="ref:dict", modifies=KEYFILE_STATE,
-      ensures={"C03+C19.only-key-files-touched": KF0, "C02.new-tree": "fresh(result)"},
-      raises={"C03+C19.only-key-files-touched": KF0, "C15.serialisation-error-class": "exc_is(Exception)"})
+      defines_ensures={"C02+C10.tree-of": "tree_rel(result, self, virtual, sensitive_mask)"},
+      ensures={
+          "C03+C19.only-key-files-touched": KF0, "C02.new-tree": "fresh(result)",
+          "C02.keys-are-exactly-the-stored-fields": 'forall("k:key", "iff(has(result, k), has(loc_fields, k) and True and (has(self._data, k) or (truthy(virtual) and typeis(get(loc_fields, k), \'ref:VirtualFieldMixin\'))) and not typeis(get(loc_fields, k), \'ref:InstanceMethodFieldMixin\'))")',
+          "C02+C10.nested-configuration-rendered-with-the-same-mask": 'forall("k:key", "implies(has(result, k) and not typeis(get(loc_fields, k), \'ref:VirtualFieldMixin\') and has(self._data, k) and typeis(get(self._data, k), \'ref:Config\'), tree_rel(get(result, k), get(self._data, k), virtual, sensitive_mask))")',
+          "C10.sensitive-value-replaced-by-mask": 'forall("k:key", "implies(has(result, k) and not typeis(get(loc_fields, k), \'ref:VirtualFieldMixin\') and has(self._data, k) and not typeis(get(self._data, k), \'ref:Config\') and typeis(get(loc_fields, k), \'ref:Field\') and get(loc_fields, k).sensitive and sensitive_mask is not None, get(result, k) == ite(not truthy(get(self._data, k)), None, ite(len(sensitive_mask) == 1, sensitive_mask * len(str(get(self._data, k))), sensitive_mask)))")',
+          "C10.without-mask-field-encoding-unaltered": 'forall("k:key", "implies(has(result, k) and not typeis(get(loc_fields, k), \'ref:VirtualFieldMixin\') and has(self._data, k) and not typeis(get(self._data, k), \'ref:Config\') and typeis(get(loc_fields, k), \'ref:Field\') and not (typeis(get(loc_fields, k), \'ref:Field\') and get(loc_fields, k).sensitive and sensitive_mask is not None) and sensitive_mask is None, basic_rel(get(loc_fields, k), self, get(self._data, k), get(result, k)))")',
+          "C13.configuration-untouched": "heap_unchanged('Config._Config__keyfile', 'KeyFile._KeyFile__key', 'KeyFile._KeyFile__refcount')",
+      },
+      raises={"C03+C19.only-key-files-touched": KF0,
+              "C13.configuration-untouched": "heap_unchanged('Config._Config__keyfile', 'KeyFile._KeyFile__key', 'KeyFile._KeyFile__refcount')"},
+      invariants={0: {
+          "locals": "typeis(tree, 'ref:dict') and fresh(tree) and typeis(fields, 'ref:dict') and fresh(fields) and N == len(fields)",
+          "fs": KF0,
+          "frame": "heap_unchanged('Config._Config__keyfile', 'KeyFile._KeyFile__key', 'KeyFile._KeyFile__refcount', tree)",
+          "stored-values-predate-the-call": 'forall("k:key", "old(implies(has(self._data, k), allocated(get(self._data, k))))")',
+          "keys": 'forall("k:key", "iff(has(tree, k), has(fields, k) and pos(fields, k) < I and (has(self._data, k) or (truthy(virtual) and typeis(get(fields, k), \'ref:VirtualFieldMixin\'))) and not typeis(get(fields, k), \'ref:InstanceMethodFieldMixin\'))")', "sub": 'forall("k:key", "implies(has(tree, k) and not typeis(get(fields, k), \'ref:VirtualFieldMixin\') and has(self._data, k) and typeis(get(self._data, k), \'ref:Config\'), tree_rel(get(tree, k), get(self._data, k), virtual, sensitive_mask))")', "masked": 'forall("k:key", "implies(has(tree, k) and not typeis(get(fields, k), \'ref:VirtualFieldMixin\') and has(self._data, k) and not typeis(get(self._data, k), \'ref:Config\') and typeis(get(fields, k), \'ref:Field\') and get(fields, k).sensitive and sensitive_mask is not None, get(tree, k) == ite(not truthy(get(self._data, k)), None, ite(len(sensitive_mask) == 1, sensitive_mask * len(str(get(self._data, k))), sensitive_mask)))")', "plain": 'forall("k:key", "implies(has(tree, k) and not typeis(get(fields, k), \'ref:VirtualFieldMixin\') and has(self._data, k) and not typeis(get(self._data, k), \'ref:Config\') and typeis(get(fields, k), \'ref:Field\') and not (typeis(get(fields, k), \'ref:Field\') and get(fields, k).sensitive and sensitive_mask is not None) and sensitive_mask is None, basic_rel(get(fields, k), self, get(self._data, k), get(tree, k)))")',
+      }, 1: {
+          "locals": "typeis(comp_result, 'ref:list') and fresh(comp_result)",
+          "fs": KF0,
+          "frame": "heap_unchanged('Config._Config__keyfile', 'KeyFile._KeyFile__key', 'KeyFile._KeyFile__refcount', tree, comp_result)",
+      }})
     C("core:Field.to_basic", virtual=True, params={"cfg": "ref:Config", "value": "any"}, returns="any", modifies=KEYFILE_STATE,
+      defines_ensures={"C02.encoding-of": "basic_rel(self, cfg, value, result)"},
       ensures={"C03+C19.only-key-files-touched": KF0, "C13.configuration-untouched": "heap_unchanged('Config._Config__keyfile', 'KeyFile._KeyFile__key', 'KeyFile._KeyFile__refcount')"},
       raises={"C03+C19.only-key-files-touched": KF0, "C13.configuration-untouched": "heap_unchanged('Config._Config__keyfile', 'KeyFile._KeyFile__key', 'KeyFile._KeyFile__refcount')"})
     C("core:Field.to_python", virtual=True, params={"cfg": "ref:Config", "value": "any"}, returns="any", modifies=KEYFILE_STATE + ADOPT,
